@@ -39,8 +39,14 @@ _cer_evaluators = None
 _method_classes = {}
 
 
+# content evaluation results may carry an id; nothing makes it unique (the library's own tests reuse one UUID for many
+# results): every content evaluation result built here carries the SAME id
+_CER_ID = __import__("uuid").UUID("d106f335-f663-4d14-9636-4f43a883ad26")
+
+
 def make_cer(rc=None, fc=None, hints=None, packages=None):
     return ContentEvaluationResult(
+        id=_CER_ID,
         hints=dict(hints or {}),
         format_constraints={k: I.EvaluatedFormatConstraint(format_constraint_fulfilled=v[0], error_message=v[1]) for k, v in (fc or {}).items()},
         requirement_constraints={k: I.STATE[v] for k, v in (rc or {}).items()},
@@ -62,12 +68,22 @@ def _method_based(rc_keys, fc_keys):
     """classes with generated evaluate_<key> methods (cached per key set); the methods read self.state"""
     sig = (tuple(sorted(rc_keys)), tuple(sorted(fc_keys)))
     if sig not in _method_classes:
+        def use_context(key, context):
+            # user methods may work with the EvaluationContext they are handed (narrow its scope, ...): every key's method gets
+            # the context that was built FOR IT (RcEvaluator._get_default_context per key), not one touched by another key
+            if context is not None:
+                if context.scope is not None:
+                    raise RuntimeError(f"the context handed to evaluate_{key} was already used for key {context.scope}")
+                context.scope = key
+
         def rc_method(key, is_async):
             if is_async:
                 async def evaluate(self, evaluatable_data, context):
+                    use_context(key, context)
                     return I.STATE[self.state[key]]
             else:
                 def evaluate(self, evaluatable_data, context):
+                    use_context(key, context)
                     return I.STATE[self.state[key]]
             return evaluate
 
